@@ -79,6 +79,8 @@ def run_one(m, tier='quick'):
             detail.append('%s rc=%d %s' % (pid, rc, ' | '.join(lines[:6])))
             if rc == 2:
                 detail.append(err[-500:])
+        if any(rc == 2 for rc, _, _ in res.values()):
+            return dict(id=m['id'], status='BROKEN-MUTANT', detail=detail)
         return dict(id=m['id'], status='caught' if (ok and expect != 'silent') else ('silent-ok' if ok else 'MISSED' if expect != 'silent' else 'FALSE-ALARM'), detail=detail)
     finally:
         shutil.rmtree(d, ignore_errors=True)
@@ -105,7 +107,7 @@ def main():
     with concurrent.futures.ThreadPoolExecutor(max_workers=a.jobs) as ex:
         for r in ex.map(run_one, ms):
             print('%-48s %s' % (r['id'], r['status']))
-            if a.verbose or r['status'] in ('MISSED', 'FALSE-ALARM'):
+            if a.verbose or r['status'] in ('MISSED', 'FALSE-ALARM', 'BROKEN-MUTANT'):
                 for dline in r.get('detail', []):
                     print('     ', dline)
             if r['status'] in ('MISSED', 'FALSE-ALARM'):
